@@ -59,11 +59,32 @@ def run_workers(cases, jobs=16):
 
 
 # ---------------------------------------------------------------- encoding for the model
+def _section(cfg):
+    if not isinstance(cfg, dict):
+        return {}
+    t = cfg.get("tool")
+    if isinstance(t, dict) and isinstance(t.get("ariadne-codegen"), dict):
+        return t["ariadne-codegen"]
+    s = cfg.get("ariadne-codegen")
+    return s if isinstance(s, dict) else {}
+
+
+DEFAULT_CLIENT_FILES = {(True, True): "async_base_client_open_telemetry.py", (True, False): "async_base_client.py",
+                        (False, True): "base_client_open_telemetry.py", (False, False): "base_client.py"}
+
+
 def env_sx(obs):
+    """Environment for the model.  File CONTENT travels only for the one file the model reads (the base client
+    file: the configured one, or the default selected by async_client/opentelemetry_client); every other file is
+    sent as a file with empty content (the model only asks for its kind)."""
+    sec = _section(obs.get("config"))
+    read = {sec.get("base_client_file_path"),
+            obs["deps"] + "/" + DEFAULT_CLIENT_FILES[(sec.get("async_client", True) is not False,
+                                                       sec.get("opentelemetry_client", False) is True)]}
     paths = []
     for p, k in obs["paths"].items():
         if k[0] == "file":
-            paths.append([p, [Sym("file"), k[1]]])
+            paths.append([p, [Sym("file"), k[1] if p in read else ""]])
         else:
             paths.append([p, Sym(k[0])])
     vars_ = [[k, v] for k, v in obs["vars"].items()]
@@ -131,6 +152,15 @@ def msg_agrees(model_cls, model_msg, impl_msg):
     if model_cls.startswith("other:"):
         return True          # text of foreign exceptions is not part of the model
     return model_msg in impl_msg
+
+
+def norm_msg(m):
+    """'Missing configuration fields: a, b, c' lists a Python set: its order is unspecified (it depends on the
+    size of the section through set.difference's two strategies) and is not part of any claim."""
+    pre = "Missing configuration fields: "
+    if m.startswith(pre):
+        return pre + ", ".join(sorted(m[len(pre):].split(", ")))
+    return m
 
 
 def rel(root, p):
@@ -225,7 +255,29 @@ def build_cases(ctx):
         for j in range(nvar):
             opts = rng.sample(G.CLIENT_OPTS, rng.randint(1, 5))
             cases.append(G.violate(opts, v, f"violation/var{j}/{v[0]}"))
-    # pairs of violations: which error is reported first (K1 only)
+    # option x violation: every context option, each constraint violated under it (both schema sources,
+    # directories, custom base client, headers, legacy section, relative paths, plugins, ...)
+    for v in viols:
+        for f in G.CLIENT_OPTS:
+            if f.__name__ in v[4] or f is G.o_preexisting:
+                continue
+            cases.append(G.violate([f], v, f"violation/x-{f.__name__}/{v[0]}"))
+    # systematic pairs of violations of different constraints (one representative per constraint; all in thorough)
+    reps = {}
+    for v in viols:
+        reps.setdefault(v[1] or v[0], v)
+    plist = viols if thorough else list(reps.values())
+    for i, a in enumerate(plist):
+        for c2 in plist[i + 1:]:
+            if (a[1] or a[0]) == (c2[1] or c2[0]):
+                continue
+            c = G.base_case()
+            a[2](c)
+            c2[2](c)
+            c.update({"id": f"pair/sys/{a[0]}+{c2[0]}", "expect": "invalid", "names": [], "group": "violation-pair",
+                      "kind": "pair", "cls": None, "opts": []})
+            cases.append(c)
+    # random pairs of violations on random variants: which error is reported first
     for i in range(120 if thorough else 40):
         a, c2 = rng.sample(viols, 2)
         if a[1] == c2[1]:
@@ -235,7 +287,7 @@ def build_cases(ctx):
         c = G.apply_opts(G.base_case(), opts)
         a[2](c)
         c2[2](c)
-        c.update({"id": f"pair/{i}/{a[0]}+{c2[0]}", "expect": "observe", "group": "violation-pair", "kind": "pair",
+        c.update({"id": f"pair/{i}/{a[0]}+{c2[0]}", "expect": "invalid", "names": [], "group": "violation-pair", "kind": "pair",
                   "cls": a[3] or c2[3]})
         cases.append(c)
     cases += G.schema_valid_variants()
@@ -323,8 +375,8 @@ def judge(ctx, case, obs, mres, twin_obs):
     problems = k3_problems(case, obs)
     if twin_obs is not None:
         te = twin_obs["exception"]
-        same = (impl_class(te) == icls and (te or {}).get("message", "").replace(twin_obs["root"], "")
-                == (exc or {}).get("message", "").replace(obs["root"], "")
+        same = (impl_class(te) == icls and norm_msg((te or {}).get("message", "").replace(twin_obs["root"], ""))
+                == norm_msg((exc or {}).get("message", "").replace(obs["root"], ""))
                 and [rel(twin_obs["root"], os.path.join(twin_obs["root"], p)) for p in twin_obs["created"]] == obs["created"])
         if not same and case["id"].startswith("unknown-keys:"):
             problems.append(f"unknown keys changed the outcome: {icls} vs {impl_class(te)}")
